@@ -17,24 +17,25 @@ Fixpoint acct_sum (ps : list post) (acct : str) (c : option comm) : Q :=
   end.
 
 Lemma account_balance_exact ord acct c : forall ps acc b,
-  account_balance ord acct ps acc = Ok b -> bden b c == bden acc c + acct_sum ps acct c.
+  account_balance ord acct ps acc = Ok b -> den b c == den acc c + acct_sum ps acct c.
 Proof.
   induction ps as [|p ps IH]; intros acc b; cbn [account_balance acct_sum].
   - intros [= <-]. ring.
   - destruct (str_eqb (p_acct p) acct).
     + destruct (p_amt p) as [a|].
-      * destruct (bal_add_amt ord acc (strip_lot a)) as [acc'|] eqn:E; cbn [bind]; [|discriminate].
-        intros H. rewrite (IH _ _ H), (bal_add_amt_exact _ _ _ _ c E). ring.
+      * destruct (add_or_set ord acc (strip_lot a)) as [acc'|] eqn:E; cbn [bind]; [|discriminate].
+        intros H. rewrite (IH _ _ H), (add_or_set_exact _ _ _ _ c E). ring.
       * intros H. rewrite (IH _ _ H). ring.
     + intros H. rewrite (IH _ _ H). ring.
 Qed.
 
-Lemma account_balance_total ord acct : forall ps acc, exists b, account_balance ord acct ps acc = Ok b.
+Lemma account_balance_total ord acct : forall ps acc,
+  is_sum_value acc -> exists b, account_balance ord acct ps acc = Ok b.
 Proof.
-  induction ps as [|p ps IH]; intros acc; cbn [account_balance]; [eexists; reflexivity|].
-  destruct (str_eqb (p_acct p) acct); [|apply IH].
-  destruct (p_amt p) as [a|]; [|apply IH].
-  destruct (bal_add_amt_ok ord acc (strip_lot a)) as [acc' E]. rewrite E. cbn [bind]. apply IH.
+  induction ps as [|p ps IH]; intros acc Hs; cbn [account_balance]; [eexists; reflexivity|].
+  destruct (str_eqb (p_acct p) acct); [|apply IH; exact Hs].
+  destruct (p_amt p) as [a|]; [|apply IH; exact Hs].
+  destruct (add_or_set_ok ord acc (strip_lot a) Hs) as [acc' [E [Hs' _]]]. rewrite E. cbn [bind]. apply IH. exact Hs'.
 Qed.
 
 Lemma acct_sum_app ps qs acct c : acct_sum (ps ++ qs) acct c == acct_sum ps acct c + acct_sum qs acct c.
@@ -51,8 +52,8 @@ Qed.
 
 (* the balance `bal` shows for an account is the same whatever the hash order *)
 Lemma account_balance_order_free acct c ps b b' :
-  account_balance false acct ps [] = Ok b -> account_balance true acct ps [] = Ok b' ->
-  bden b c == bden b' c.
+  account_balance false acct ps VVoid = Ok b -> account_balance true acct ps VVoid = Ok b' ->
+  den b c == den b' c.
 Proof.
   intros H H'. rewrite (account_balance_exact _ _ c _ _ _ H), (account_balance_exact _ _ c _ _ _ H'). reflexivity.
 Qed.
